@@ -24,3 +24,15 @@ Theorem C18_shared_tree_derivation :
   forall e, wfG e = true -> G (clev e) (fmtC e) (canon e).
 Proof. exact fmtC_derives. Qed.
 Print Assumptions C18_shared_tree_derivation.
+
+(* The numba printer proper: PyFmt.fmtPy models numba/formatter.py token for token (checked against the
+   real Formatter on every run; handler shapes checked by tr_prec.py) with the comparators regenerated from
+   the source.  For every tree FFCx can produce (no comparison directly under a comparison), the printed
+   tokens derive, under a Python expression grammar written from the language reference, the canonical
+   reading of the tree: precedence and associativity cannot change the meaning. *)
+From FFCX Require Import PyFmt.
+
+Theorem C18_numba_text_derives_the_tree_under_pythons_grammar :
+  forall e, wfPy e = true -> GP (plev e) (fmtPy e) (pcanon e).
+Proof. exact fmtPy_derives. Qed.
+Print Assumptions C18_numba_text_derives_the_tree_under_pythons_grammar.
